@@ -12,7 +12,7 @@ From CobwebProofs Require Import RunnerInv OnceInv TicketInv ReadersSpec TopLeve
 (* (1) the assertion is checked before every body, and means what it says *)
 Theorem assertion_guards_every_body : forall (P : program) (f : nat) t r c cl w,
   fresh_claim_b t w = false -> exec P (S f) (IBody t r c cl) w = Stuck 5.
-Proof. intros P f t r c cl w H. cbn [exec]. rewrite H. reflexivity. Qed.
+Proof. intros P f t r c cl w H. cbn [exec]. unfold body_guard. rewrite H. reflexivity. Qed.
 Theorem assertion_meaning : forall t w, fresh_claim_b t w = true ->
   visible w = snd (last_claim w) /\ snd (fst (last_claim w)) = t.
 Proof.
